@@ -546,6 +546,97 @@ def unroll_array_loops(body):
         return {k_: (rewrite(v) if isinstance(v, (dict, list)) else v) for k_, v in x.items()}
     return rewrite(body)
 
+def returns_as_match(body):
+    """a copy of a unit function's body in which guard statements that leave early read as the branching they abbreviate:
+        if let P = X { A; return; } REST      =>  match X { P => { A }, _ => { REST } }
+        if C { A; return; } REST              =>  if C { A } else { REST }          (if !C { return; } REST  =>  if C { REST })
+        if matches!(X, P) { T } else { E }    =>  match X { P => T, _ => E }
+        match X { .., _ => match X { ARMS } } =>  match X { .., ARMS }             (X a plain read: variable, field, as_ref / deref of one)
+    Only bare `return;` at the end of the guarded block is rewritten; anything else is left as written."""
+    def peel(x):
+        while isinstance(x, dict) and (x.get('k') in ('Use', 'NeverToAny') or (x.get('k') == 'Block' and not x.get('stmts') and x.get('expr') is not None)):
+            x = x.get('source') if x['k'] != 'Block' else x['expr']
+        return x
+    def ends_with_bare_return(blk):
+        """(statements before the return) if blk is a block whose last action is `return;` and which has no other return"""
+        b = blk
+        while b.get('k') in ('Use', 'NeverToAny'): b = b['source']
+        if b.get('k') != 'Block': return None
+        stmts = list(b['stmts']); tail = b.get('expr')
+        last = None
+        if tail is not None:
+            last = peel(tail)
+        elif stmts and stmts[-1]['k'] == 'Expr':
+            last = peel(stmts[-1]['expr']); stmts = stmts[:-1]
+        if last is None or last.get('k') != 'Return' or last.get('value') is not None: return None
+        if any(y['k'] == 'Return' for st in stmts for y in walk(st.get('expr') or st.get('init') or {'k': 'Tuple', 'fields': []})): return None
+        return {'k': 'Block', 'stmts': stmts, 'expr': None, 'loc': b.get('loc'), 'ty': b.get('ty'), 'synthetic': 'guard-body'}
+    def plain_read(x):
+        x = peel(x)
+        while x.get('k') in ('Borrow', 'Deref'): x = peel(x['arg'])
+        if x.get('k') in ('VarRef', 'UpvarRef'): return True
+        if x.get('k') == 'Field': return plain_read(x['lhs'])
+        if x.get('k') == 'Call' and len(x.get('args', [])) == 1 and callee_decl(x) in ('std::convert::AsRef::as_ref', 'std::ops::Deref::deref', 'std::borrow::Borrow::borrow'): return plain_read(x['args'][0])
+        return False
+    def matches_shape(c):
+        """(X, P) when c is matches!(X, P)"""
+        c = peel(c)
+        if c.get('k') != 'Match' or len(c['arms']) != 2 or any(a.get('guard') is not None for a in c['arms']): return None
+        def boolean(x):
+            x = peel(x)
+            return x.get('value') if x.get('k') == 'Literal' and isinstance(x.get('value'), bool) else None
+        a0, a1 = c['arms']
+        q = a1['pat']
+        while q['k'] in ('Deref', 'DerefPattern'): q = q['sub']
+        if boolean(a0['body']) is True and boolean(a1['body']) is False and q['k'] == 'Wild': return (c['scrutinee'], a0['pat'])
+        return None
+    def wild(loc): return {'k': 'Wild', 'loc': loc}
+    def unit(loc): return {'k': 'Tuple', 'fields': [], 'loc': loc}
+    def rw(x):
+        if isinstance(x, list): return [rw(y) for y in x]
+        if not isinstance(x, dict): return x
+        if x.get('k') == 'Block':
+            stmts = x['stmts']
+            for i, st in enumerate(stmts):
+                if st['k'] != 'Expr': continue
+                y = peel(st['expr'])
+                if y.get('k') != 'If' or y.get('else') is not None: continue
+                guarded = ends_with_bare_return(y['then'])
+                if guarded is None: continue
+                rest = rw({'k': 'Block', 'stmts': stmts[i + 1:], 'expr': x.get('expr'), 'loc': x.get('loc'), 'ty': x.get('ty'), 'synthetic': 'after-guard'})
+                c = y['cond']
+                while c.get('k') == 'Use': c = c['source']
+                if c.get('k') == 'Let':
+                    tail = {'k': 'Match', 'loc': y.get('loc'), 'source': 'Normal', 'synthetic': 'guard-as-match', 'scrutinee': c['expr'],
+                            'arms': [{'pat': c['pat'], 'guard': None, 'body': rw(guarded), 'loc': y.get('loc')}, {'pat': wild(y.get('loc')), 'guard': None, 'body': rest, 'loc': y.get('loc')}], 'ty': x.get('ty')}
+                else:
+                    neg = peel(c)
+                    if neg.get('k') == 'Unary' and neg.get('op') == 'Not' and not guarded['stmts']:
+                        tail = {'k': 'If', 'loc': y.get('loc'), 'cond': neg['arg'], 'then': rest, 'else': None, 'ty': x.get('ty'), 'synthetic': 'guard-as-if'}
+                    else:
+                        tail = {'k': 'If', 'loc': y.get('loc'), 'cond': c, 'then': rw(guarded), 'else': rest, 'ty': x.get('ty'), 'synthetic': 'guard-as-if'}
+                out = dict(x); out['stmts'] = rw(stmts[:i]); out['expr'] = simplify(tail)
+                return out
+        return simplify({k_: (rw(v) if isinstance(v, (dict, list)) else v) for k_, v in x.items()})
+    def simplify(x):
+        if x.get('k') == 'If' and x['cond'].get('k') != 'Let':
+            ms = matches_shape(x['cond'])
+            if ms is not None:
+                x = {'k': 'Match', 'loc': x.get('loc'), 'source': 'Normal', 'synthetic': 'matches-as-match', 'scrutinee': ms[0], 'ty': x.get('ty'),
+                     'arms': [{'pat': ms[1], 'guard': None, 'body': x['then'], 'loc': x.get('loc')},
+                              {'pat': wild(x.get('loc')), 'guard': None, 'body': x['else'] if x.get('else') is not None else unit(x.get('loc')), 'loc': x.get('loc')}]}
+        if x.get('k') == 'Match' and x['arms'] and plain_read(x['scrutinee']):
+            last = x['arms'][-1]
+            q = last['pat']
+            while q['k'] in ('Deref', 'DerefPattern'): q = q['sub']
+            inner = peel(last['body'])
+            if isinstance(inner, dict) and inner.get('k') == 'Block' and not inner.get('stmts') and inner.get('expr') is not None: inner = peel(inner['expr'])
+            if q['k'] == 'Wild' and last.get('guard') is None and isinstance(inner, dict) and inner.get('k') == 'Match' and inner.get('source') in (None, 'Normal') and \
+                    plain_read(inner['scrutinee']) and pp(peel(inner['scrutinee'])) == pp(peel(x['scrutinee'])):
+                x = dict(x); x['arms'] = list(x['arms'][:-1]) + list(inner['arms'])
+        return x
+    return rw(body)
+
 def baseline_roots(c, name, _seen=None):
     """the functions of the pinned tree on whose behalf the (new) function `name` runs: its callers, followed upwards through
     other new functions.  A function of the pinned tree is its own root.  None if a new function has no caller at all."""
